@@ -19,6 +19,9 @@ func runC18(c *Ctx) {
 	r18_2(c, "R18.2")
 	r18_3(c, "R18.3")
 	r18_4(c, "R18.4")
+	// resolved follow-paths may keep a wildcard: the prefix-only flag must be
+	// computed from the merged list (shared with C10)
+	r10_10(c, "R18.5")
 }
 
 func r18_1(c *Ctx, rule string) {
